@@ -93,6 +93,7 @@ def encErr : Err → Json
   | .key => "KeyError"
   | .value => "ValueError"
   | .type => "TypeError"
+  | .assertion => "Other:AssertionError"
 
 def encSub : Tree → Json
   | .leaf (some v) => obj [("v", encVal v)]
@@ -106,9 +107,9 @@ def encRes {α} (f : α → Json) : Except Err α → Json
 
 /-- what `Processor.set` is given: `"value"` (a non-text value, kept as it is), `"text"` (converted with
 `eval_entry`) or `"items"` (a sequence: `[eval_entry(x) if x else x for x in value]`, always a list) -/
-def decInput (j : Json) : R Val :=
+def decInput (j : Json) : R (Except Err Val) :=
   match j.getObjVal? "text" with
-  | .ok t => do .ok (evalEntry (← asStr t))
+  | .ok t => do .ok (evalEntryPy (← asStr t))
   | .error _ =>
   match j.getObjVal? "items" with
   | .ok it => do
@@ -116,28 +117,28 @@ def decInput (j : Json) : R Val :=
       match e.getObjVal? "text" with
       | .ok t => do
         let s ← asStr t
-        pure (if s.isEmpty then Val.str s else evalEntry s)
-      | .error _ => do decVal (← fld e "value")
-    .ok (.list xs)
-  | .error _ => do decVal (← fld j "value")
+        pure (if s.isEmpty then Except.ok (Val.str s) else evalEntryPy s)
+      | .error _ => do pure (Except.ok (← decVal (← fld e "value")))
+    .ok (do let vs ← xs.mapM id; pure (Val.list vs))
+  | .error _ => do .ok (.ok (← decVal (← fld j "value")))
 
 def handle (j : Json) : R Json := do
   let op ← asStr (← fld j "op")
   match op with
   | "eval" =>
     let t ← asStr (← fld j "text")
-    .ok (obj [("val", encVal (evalEntry t))])
+    .ok (obj [("val", encVal (evalEntry t)), ("py", encRes encVal (evalEntryPy t))])
   | "key" =>
     let det ← decTree (← fld j "det")
     let cfg ← decCfg (← fld j "cfg")
     let key ← asList asStr (← fld j "key")
-    let v ← decInput j
+    let vin ← decInput j
     let probes ← asList (asList asStr) (← fld j "probes")
     let t := processorTree det cfg
     let strict := PyxelModel.Generated.C08.setIsStrict
     let acc : Nat → Val → Except Err Unit := fun _ _ => .ok ()
     let setOne (s : Bool) : Json :=
-      match setP s acc t key v with
+      match vin.bind (setP s acc t key) with
       | .ok t' => obj [("ok", Json.bool true),
                        ("after", ofList (fun p => encRes encSub (getP t' p)) probes),
                        ("has_after", ofList (fun p => encRes Json.bool (hasP t' p)) probes)]
